@@ -278,6 +278,11 @@ class Report:
             "assumptions": self.assumptions + meta.get("assumptions", []),
             "wall_s": round(time.time() - self.t0, 2), "violations": len(self.violations),
         }
+        if not self.obligations:
+            # nothing was discharged on this run (a build / proof step broke): do not claim proof coverage
+            for k in ("obligations", "discharged"):
+                ev["coverage"].pop(k, None)
+            ev["coverage"]["explanation"] = "proof obligations were not discharged on this run; see violations"
         ev["coverage"].update(self.extra)
         os.makedirs(os.path.join(ROOT, "evidence"), exist_ok=True)
         with open(os.path.join(ROOT, "evidence", f"{self.prop}.json"), "w") as f:
